@@ -20,6 +20,8 @@ CLAIMS["C07"] = ("partial, strong: expiry check before every open (from the extr
     "FSM arm extraction, region (dominance/post-dominance) coupling of stores and purges, decision table with forked clock result")
 CLAIMS["C13"] = ("partial, strong: every write of the negotiated version provably lowers it (dominating-guard reasoning per store), the three downgrade triggers with their conditions and continuations, first-PDU flag discipline, version check refuses foreign-version PDUs before the payload with report code 8, and every status comparison in the protocol code agrees with the callee's computed return set (hang-up downgrade live); End-of-Data formats are decided under C04",
     "dominating-guard implication per store, decision cells on rtr_receive_pdu, interprocedural return-value sets (belief contradiction)")
+CLAIMS["C03"] = ("partial, strong: buffer-then-apply (every table-reaching call dominated by End of Data and its session check), serial stored iff every update succeeded iff success is returned (all paths, update/undo results forked over their full return sets), rollback exhaustiveness (any failed undo purges both live tables and forces a reset; every failure ends in RTR_ERROR and an error state; undo loops cover all families applied so far), shadow swap only on success and silent release on every path, own-socket records only, and a program-wide inventory of dropped status results; equality of table contents with the mathematical delta is C02 composed with these",
+    "path-sensitive effect counting with forked call results over computed return sets, dominating guards, loop-structure matching, call graph closure")
 NA = {}
 def main():
     props = [json.loads(l) for l in open(os.path.join(HERE, "properties.jsonl"))]
